@@ -51,13 +51,13 @@ def lib_loops(strb):
         # bytes are 22 groups of 3
         (r"encode64_uint32_fixed", None, 7, False),
         (r"encode64_uint32(\$link\d+)?$", None, 8, False),
-        (r"(^|_)encode64(\$link\d+)?$", r"for \(i = 0; i < srclen", 24, False),
+        (r"(^|_)encode64(\$link\d+)?$", r"for \(i = 0; i < srclen", 40, False),   # 22 groups for 64 bytes; slack so a longer salt reaches the assertions
         (r"(^|_)encode64(\$link\d+)?$", r"while \(bits < 24|^\s*do\s*$|do \{", 5, False),
         (r"N2log2", None, 66, False),
         (r"decode64_uint32(_fixed)?$", None, 8, False),
         (r"yescrypt_decode64$", r"while \(srclen--\)", 6, False),
         (r"yescrypt_decode64$", r"dstpos\+\+ <", 5, False),
-        (r"yescrypt_decode64$", r"dstpos <= \*dstlen", 26, False),
+        (r"yescrypt_decode64$", r"dstpos <= \*dstlen", 40, False),
         (r"^verify_salt$", None, strb, False),
         (r"^BF_encode$", None, 8, False),
         (r"^to64$", None, 6, False),
